@@ -18,6 +18,11 @@ impl Buffer {
 
     pub fn parse_hyperlinks(&self) -> Vec<HyperLink> {
         let mut result = Vec::new();
+        // nothing to scan (an empty file loads as a buffer of height 0); the backwards walk below would start
+        // at row -1 and never reach row 0
+        if self.get_width() <= 0 || self.get_height() <= 0 {
+            return result;
+        }
 
         let mut pos = Position::new(self.get_width() - 1, self.get_height() - 1);
         let mut parser = rfind_url::Parser::new();
